@@ -2,6 +2,7 @@
 //! Prints one JSON report on the last line of stdout.
 mod c01;
 mod c01_eq;
+mod c01_order;
 mod c02;
 mod c02_copy;
 mod c03;
